@@ -59,7 +59,8 @@ Commit(s, t, what) ==
                                   \o " is not ordered by happens-before after a conflicting access")
     /\ lastw' = s.lastw /\ reads' = s.reads /\ raced' = s.raced
 
-WriteKinds == {"wb", "we", "ctor", "dtor", "pw", "construct", "destroy", "dealloc", "alloc"}
+\* (ctor / dtor of shared_ptr-managed payload versions are ordered by the uninstrumented reference counts: not judged here)
+WriteKinds == {"wb", "we", "pw", "construct", "destroy", "dealloc", "alloc"}
 CopyKinds == {"cb", "ce", "kb", "ke"}   \* write of the destination (o, i), read of the source (o, u)
 ReadKinds == {"rb", "re", "pr"}
 LockKinds == {"mlock", "slock"}
